@@ -395,9 +395,13 @@ def _(c):
         other.propagator = p
         other.propagate(d1)
         c.ensure("shared_propagator_rebinds", np.asarray(src.propagate(d1), dtype=float).tobytes() == a)
-        if prop not in ("sgp4", "cw"):
+        if True:
             # a clearly different second orbit through the SAME propagator object, after the first: its answer is the one a fresh orbit with a fresh propagator gives
             def changed(o):
+                if prop == "sgp4":
+                    o[5] = float(o[5]) * 1.001       # (mean elements: the mean motion)
+                    o[2] = float(o[2]) * 1.5         # and the eccentricity
+                    return o
                 o[:3] = np.asarray(o[:3], dtype=float) * 1.15
                 o[3:] = np.asarray(o[3:], dtype=float) * 0.97
                 return o
